@@ -73,6 +73,11 @@ CHECKS = {
         "note": TRUST + " Not proved: the whole-file bridge (decode of an encoded abstract disk) -- it is checked by execution (ii, iii).",
         "design": "DESIGN.md section 5 C10",
     },
+    "C16": {
+        "text": "Coq over Model/Cache.v (bucketed CLOCK cache with murmur3 bucket choice): after every operation of every sequence the reported memory equals the total size of the held entries and there is at most one entry per key; an explicit remove is never followed by a hit. Tie: the public ClockCache API vs the model on random sequences with evictions (every hit/miss, memory_usage, eviction count, watermarks after each call) plus an implementation-side oracle (no hit after remove, usage at or below the low watermark after eviction, zero after clear). Transparency (results identical with the cache on and off; entries served only for the exact generation) is decided by execution: the C01 call sequences in all 12 persistent configurations, cache on and off, must equal the same reference map with offloaded and cached values.",
+        "note": TRUST + " Not proved: the eviction post-conditions (low watermark reached; referenced entries spared when unreferenced ones suffice) and transparency -- both only by execution; concurrent reader/writer interleavings are not explored by this check.",
+        "design": "DESIGN.md section 5 C16",
+    },
     "C17": {
         "text": "Totality/no-panic/termination of a byte-level model of open+recovery proved in Coq for every image and configuration (fuel never exhausted, every scan step strictly advances, parse_record never slices out of range), plus: rejected-for-size-or-metadata leaves the image untouched, unrecognised files are rejected unmodified. The model is tied to the code on every run: thousands of mutated/forged images are opened by the real code (child process, watchdog) and by the extracted model and must agree on outcome, error kind, contents, values, free-space stats and the file bytes after the open; an implementation-side oracle flags panics, hangs, aborts and modification on rejection directly.",
         "note": TRUST + " 'A store that opens answers every call' is observed by a probe workload, not proved.",
